@@ -83,6 +83,17 @@ OTHERS = ["8.0.0", "8.1.0", "8.2.0", "score_1.0.0", "score_1.1.0", "score_2.0.0"
 KIND_NAMES = {}
 
 
+def read_longs(name):
+    """long names of the tags of a bundled schema, or of several libraries merged (comma-separated), in load order"""
+    longs, have = [], set()
+    for part in name.split(","):
+        for t in schema_xml.read(schema_xml.bundled()[part])["tags"]:
+            if t["long"] not in have:
+                have.add(t["long"])
+                longs.append(t["long"])
+    return longs
+
+
 def load_impl(name, ns=""):
     from hed.errors.error_types import ValidationErrors
     for k in ("NO_VALID_TAG_FOUND", "INVALID_PARENT_NODE", "HED_LIBRARY_UNMATCHED"):
@@ -443,9 +454,10 @@ def run_schema(ctx, name, full, ns=""):
     from hed import HedTag
     from harness.props.c10 import install_kind_recorder
     install_kind_recorder()
-    vocab = schema_xml.read(schema_xml.bundled()[name])
+    # a comma-separated name = several libraries merged into one schema (under the prefix `ns`): the loader finalises
+    # the first schema, sets the prefix, merges the next library and finalises AGAIN with the prefix already set
+    longs = read_longs(name)
     schema = load_impl(name, ns)
-    longs = [t["long"] for t in vocab["tags"]]
     # duplicates predicted here (a later tag whose folded short name is already registered), so that the vocabulary is
     # installed once per run; the model's and the loader's lists are compared with it after the batch
     seen, pred_dups = set(), []
@@ -492,8 +504,8 @@ def run_schema(ctx, name, full, ns=""):
                 # the same path and extension again in other letter cases, on the same schema object: the remainder
                 # must be carried over as written *this* time, whatever spelling was resolved before (a lookup memo
                 # keyed by the folded text would hand back the earlier spelling's extension)
-                for e in (ext, ext + "/Qq-w"):
-                    for respell in (str.lower, str.upper, str.swapcase):
+                for e, respellers in ((ext, (str.lower, str.swapcase)), (ext + "/Qq-w", (str.upper,))):
+                    for respell in respellers:
                         t = respell(sp + e)
                         if t != sp + e:
                             cases.append((ns + t, long, form, t[len(sp):], "ext-respelled"))
@@ -585,6 +597,7 @@ def run(ctx):
     run_schema(ctx, "8.3.0", False, ns="xx:")
     run_schema(ctx, "8.3.0", False, ns="sc:")
     run_schema(ctx, "testlib_2.0.0", False, ns="tl:")
+    run_schema(ctx, "testlib_2.0.0,score_1.1.0", False, ns="tl:")     # two libraries merged under one prefix
     for n in OTHERS:
         run_schema(ctx, n, not ctx.quick())
     if not ctx.quick():
@@ -597,7 +610,7 @@ def replay_bulk(ctx, case):
     from hed import HedString
     from hed.models.df_util import convert_to_form
     name, ns, text = case["schema"], case.get("ns", ""), case["text"]
-    vocab = schema_xml.read(schema_xml.bundled()[name])
+    vocab = {"tags": [{"long": l} for l in read_longs(name)]}
     schema = load_impl(name, ns)
     a = ctx.model.batch([{"op": "c03.schema", "name": name + ns, "ns": ns, "tags": [t["long"] for t in vocab["tags"]]}] +
                         [{"op": "c03.convert", "schema": name + ns, "form": f, "text": text} for _, f in FORMS])
@@ -642,7 +655,7 @@ def replay(ctx, rec):
     if case.get("bulk"):
         return replay_bulk(ctx, case)
     name, ns = case["schema"], case.get("ns", "")
-    vocab = schema_xml.read(schema_xml.bundled()[name])
+    vocab = {"tags": [{"long": l} for l in read_longs(name)]}
     schema = load_impl(name, ns)
     a = ctx.model.batch([{"op": "c03.schema", "name": name + ns, "ns": ns, "tags": [t["long"] for t in vocab["tags"]]},
                          {"op": "c03.find", "schema": name + ns, "text": case["text"]}])
